@@ -312,9 +312,11 @@ fn body_deferred(max_atoms: usize) -> impl Fn(&Ch) -> Run + Sync + Send {
       names.push(ATOMS[a].0);
     }
     // a parsable module whose trailing comment carries the bytes under test
-    // (it imports a sibling file served as windows-1252: a second deferred
-    // content load in the same package, before or after this one)
-    let mut content: Vec<u8> = b"import \"./sib.ts\";\nexport const v = 1;\n//".to_vec();
+    // (the root asks for a sibling file served as windows-1252 first, and this
+    // file imports a further one served without any header: three deferred
+    // content loads in one package, with a named charset before and none after)
+    let mut content: Vec<u8> = b"import \"./post.ts\";\nexport const v = 1;\n//".to_vec();
+    let post_content = "export const p = \"é\";\n".as_bytes().to_vec();
     let sib_content = "export const s = \"é\";\n".as_bytes().to_vec();
     let sib_want = "export const s = \"Ã©\";\n";
     let lead_bom = ch.flag("leading_utf8_bom");
@@ -326,11 +328,11 @@ fn body_deferred(max_atoms: usize) -> impl Fn(&Ch) -> Run + Sync + Send {
     for header in HEADERS {
       let sched = Sched::new(SchedMode::Immediate);
       let loader = ScriptedLoader::new(sched);
-      loader.add_text("https://x/root.ts", "import \"jsr:@s/a@1\";\n");
+      loader.add_text("https://x/root.ts", "import \"jsr:@s/a@1/sib\";\nimport \"jsr:@s/a@1\";\n");
       let mut v = RegVersion::new("1.0.0", &[]);
       // the embedded module information is computed from the text as a UTF-8 reader sees it
-      v.files = vec![("/mod.ts".into(), content.clone()), ("/sib.ts".into(), sib_content.clone())];
-      v.exports = json!({".": "./mod.ts"});
+      v.files = vec![("/mod.ts".into(), content.clone()), ("/sib.ts".into(), sib_content.clone()), ("/post.ts".into(), post_content.clone())];
+      v.exports = json!({".": "./mod.ts", "./sib": "./sib.ts"});
       v.embed_module_graph = true;
       let p = RegPackage { name: "@s/a".into(), versions: vec![v], raw_meta: None };
       p.install(&loader);
@@ -357,6 +359,18 @@ fn body_deferred(max_atoms: usize) -> impl Fn(&Ch) -> Run + Sync + Send {
           ),
         }
         run.count("runs_with_two_deferred_content_loads", 1);
+      }
+      let post_url = "https://jsr.io/@s/a/1.0.0/post.ts";
+      if loader.log.borrow().iter().filter(|c| c.specifier.as_str() == post_url).count() >= 2 {
+        match graph.try_get(&url(post_url)) {
+          Ok(Some(Module::Js(js))) if js.source.text.as_bytes() == post_content.as_slice() => {}
+          other => run.violate(
+            "deferred-sibling-text-mismatch",
+            format!("post.ts, served as UTF-8 without a header after mod.ts, became {:?}", other.map(|m| m.map(|m| m.source().map(|s| s.to_string()))).map_err(|e| e.to_string())),
+            json!({"atoms": names, "bytes_hex": hex(&content), "charset_header_of_mod_ts": header}),
+          ),
+        }
+        run.count("runs_with_a_headerless_deferred_load_after_mod_ts", 1);
       }
       let deferred = loader.log.borrow().iter().filter(|c| c.specifier.as_str() == file_url).count() >= 2;
       if !deferred {
